@@ -298,6 +298,35 @@ def run_mute(params, obs):
     return problems
 
 
+def run_announced(role, seg_mru, xfer_mru, keepalive, obs):
+    ''' A scripted peer announces arbitrary values; get_session_parameters() must report them as announced. '''
+    from vf.props import c17
+    peer = c17.Peer(role, 'pre-init')
+    peer.write(tw.encode(dict(type='SESS_INIT', keepalive=keepalive, segment_mru=seg_mru, transfer_mru=xfer_mru, nodeid=b'dtn://announcer/', ext=[])))
+    peer.sent_sess_init = True
+    peer.settle()
+    obs['runs'] += 1
+    problems = []
+    errs = peer.sim.world.callback_errors
+    if errs:
+        return ['callback %s raised %s: %s' % (errs[0].source, errs[0].exc_type, str(errs[0].exc)[:80])]
+    try:
+        params = dict(peer.end.call('get_session_parameters'))
+    except Exception as err:  # pylint: disable=broad-except
+        return ['get_session_parameters failed: %s' % err]
+    obs['negotiations_checked'] += 1
+    obs['announced_value_runs'] = obs.get('announced_value_runs', 0) + 1
+    if params.get('peer_segment_mru') != clamp(seg_mru):
+        problems.append('peer segment MRU reported as %r, announced %r (with transfer MRU %r)' % (params.get('peer_segment_mru'), seg_mru, xfer_mru))
+    if params.get('peer_transfer_mru') != clamp(xfer_mru):
+        problems.append('peer transfer MRU reported as %r, announced %r' % (params.get('peer_transfer_mru'), xfer_mru))
+    if str(params.get('peer_nodeid')) != 'dtn://announcer/':
+        problems.append('peer node id reported as %r' % (params.get('peer_nodeid'),))
+    if params.get('keepalive') != min(keepalive, 0):
+        problems.append('negotiated keepalive %r, min of 0 (own) and %r' % (params.get('keepalive'), keepalive))
+    return problems
+
+
 def run_adaptive(params, obs):
     ''' Adaptive segment sizing: contract on the controller + wire bound. '''
     import icontract
@@ -364,6 +393,7 @@ def cases(tier, seed):
                 for bundle in (0, 40):
                     out.append(dict(id='mute-%d-%d-%d-%d' % (idle, ka, before, bundle), kind='mute', idle=idle, ka=ka, before_ms=before, bundle=bundle))
             out.append(dict(id='mute-idle-%d-%d' % (idle, ka), kind='mute', idle=idle, ka=ka, before_ms=0, bundle=0, how='idle'))
+    out.append(dict(id='announced', kind='announced'))
     rng = random.Random(seed)
     for idx in range(120 if thorough else 16):
         out.append(dict(id='adapt-%d' % idx, kind='adaptive', seed=seed * 31 + idx,
@@ -416,6 +446,13 @@ def run_case(case):
             # asymmetric idle times
             note(run_timing(dict(base, idle_b=0, traffic=[(idle * 1000 - 1, 'B', 5)], duration_s=dur), obs), 'timing',
                  dict(base, idle_b=0, traffic='B just before A idles'))
+    elif case['kind'] == 'announced':
+        for role in ('passive', 'active'):
+            for (seg_mru, xfer_mru) in ((65536, 65535), (10 * 2 ** 20, 2 ** 20), (2 ** 64 - 1, 50000), (100, 2 ** 30), (2 ** 40, 2 ** 40), (1, 1), (2 ** 31 - 1, 2 ** 31),
+                                        (5000, 5000), (2 ** 20, 0)):
+                for keepalive in (0, 7, 65535):
+                    params = dict(role=role, seg_mru=seg_mru, xfer_mru=xfer_mru, keepalive=keepalive)
+                    note(run_announced(role, seg_mru, xfer_mru, keepalive, obs), 'announced', params)
     elif case['kind'] == 'mute':
         params = {k: case[k] for k in ('idle', 'ka', 'before_ms', 'bundle')}
         params['how'] = case.get('how', 'request')
